@@ -10,6 +10,22 @@ pins._PINS = {'params': {}, 'locals': {}}
 fd, _, _, _ = R.get_facts(R.REPO)
 F = Facts(fd)
 p = pins.snapshot(F)
+# functions and locals that exist only in the alternative (all-on) build are anchors too: without them the loader would
+# treat e.g. mutex::tracking::Mutex::lock as "a helper that did not exist" and inline it into every caller
+import importlib
+from engine import thorough as T
+for alt in T.DEFAULT_ALT_BUILDS:
+    ctx = R.Ctx('C01', F, 'thorough', 0)
+    th, _ = R.tree_hash(R.REPO)
+    out = os.path.join(R.CACHE, 'alt-facts', '%s-%s' % (alt['name'], th))
+    if not os.path.exists(os.path.join(out, 'OK')):
+        T.run_alt(ctx, 'C01', importlib.import_module('rules.C01'), alt)
+    FA = Facts(out)
+    pa = pins.snapshot(FA)
+    for k, v in pa['params'].items():
+        p['params'].setdefault(k, v)
+    for k, v in pa['locals'].items():
+        p['locals'].setdefault(k, v)
 json.dump(p, open(pins.PIN_FILE, 'w'), indent=0, sort_keys=True)
 if os.path.exists(pins.PIN_FILE + '.old'):
     os.remove(pins.PIN_FILE + '.old')
